@@ -69,6 +69,49 @@ func genC14(c *Ctx) {
 	for _, s := range []string{"A=AA", "A===", "AA=A", "=", "====", "AA==", "AAA=", "AA\n=\r=\n", "AA==\nA", "A", "AA", "-_", "+-AA", "", "\n", "AAAA=", "AA=", "AAA"} {
 		c14One(c, "corpus", []byte(s))
 	}
+	// long texts in which the ONLY character that tells the alphabet (or that is foreign to it) stands at a
+	// chosen position: the head, around powers of two and typical buffer sizes, the very end; with and
+	// without padding, with and without line breaks (a decision taken from a prefix of the text shows here)
+	{
+		stdA := "ABCDEFGHIJKLMNOPQRSTUVWXYZabcdefghijklmnopqrstuvwxyz0123456789"
+		for _, L := range []int{1200, 4100, 9000} {
+			for _, pos := range []int{0, 1, 3, 4, 255, 256, 511, 512, 1023, 1024, 1025, 2047, 2048, 4095, 4096, 8191, 8192, L - 5, L - 2, L - 1} {
+				if pos < 0 || pos >= L {
+					continue
+				}
+				for _, special := range []byte{'-', '_', '+', '/', '*', ' '} {
+					for _, tail := range []string{"", "=", "=="} {
+						n := L - len(tail)
+						if len(tail) > 0 && (n+len(tail))%4 != 0 {
+							n -= (n + len(tail)) % 4
+						}
+						if pos >= n {
+							continue
+						}
+						t := make([]byte, n)
+						for i := range t {
+							t[i] = stdA[(i*7+L)%len(stdA)]
+						}
+						t[pos] = special
+						// the last character before padding must leave zero trailing bits for strict decoders: use 'A'/'Q'/'g'...
+						if len(tail) == 1 {
+							t[n-1] = "AEIMQUYcgkosw048"[(pos+L)%16]
+						} else if len(tail) == 2 {
+							t[n-1] = "AQgw"[(pos+L)%4]
+						}
+						if pos == n-1 && len(tail) > 0 {
+							continue
+						}
+						text := append(t, tail...)
+						c14One(c, "late-special", text)
+						if special == '-' && tail == "" {
+							c14One(c, "late-special-wrapped", wrapText(text, 76, pos%2 == 0))
+						}
+					}
+				}
+			}
+		}
+	}
 	// exhaustive over class representatives
 	reps := []byte{'A', '+', '/', '-', '_', '=', '\n', '\r', ' ', '*'}
 	maxLen := 4
